@@ -1,5 +1,248 @@
 import QModel.Core
-/-! C15 — model (not built yet) -/
+/-!
+# C15 — Monte-Carlo simulations: seed plumbing, task scheduling, depolarising noise, physicality check
+
+Model of
+* `generate_empi_dists_and_calc_estimate` (standard_qtomography_simulation.py:809-866): the repetition loop hands the
+  *same* `seed_or_generator` object to every repetition; `to_stream` (utils/number_util.py:53-77) turns an `int` into
+  a **new** `Generator(MT19937(seed))` each time, returns a `Generator` object as it is, and `None` as the global
+  `np.random`;
+* the flow (standard_qtomography_simulation_flow.py:116-316): `SeedSequence(seed).spawn(n)` children, one generator per
+  repetition / per sample, `joblib.Parallel` at four levels — tasks executed in any order, grouped into batches that
+  share the (mutable) loss / algorithm objects they were handed;
+* `re_estimate` (standard_qtomography_simulation.py:736-768);
+* `DepolarizedQOperationGenerationSetting` (depolarized_qoperation_generation_setting.py:35-61) with
+  `get_depolarizing_channel` (gate.py:1879-1890);
+* `StandardQTomographySimulationCheck.execute_physicality_violation_check`
+  (standard_qtomography_simulation_check.py:186-262) and `is_physical_qobjects_all`, `is_eq_constraint_satisfied_all`,
+  `is_ineq_constraint_satisfied_all` (data_analysis/physicality_violation_check.py).
+
+The pseudo-random generator is abstract: `ofSeed` builds a generator state from a seed, `draw` produces one repetition's
+empirical distributions and the advanced state.
+-/
 namespace QM.C15
-def handle (_args : List String) : Option String := none
+
+/-! ## the repetition loop of the single-setting entry point -/
+
+structure Prng (S G D : Type) where
+  ofSeed : S → G        -- Generator(MT19937(seed))
+  draw : G → D × G      -- qtomography.generate_empi_dists_sequence(true_object, num_data, stream)
+
+/-- the `seed_or_generator` argument -/
+inductive SeedArg (S G : Type)
+  | int (s : S)         -- an integer seed
+  | gen (g : G)         -- a Generator object (mutable: its state is threaded)
+  | none                -- np.random (global state)
+
+/-- one `_generate_empi_dists_and_calc_estimate(…, seed_or_generator)`: the data, the argument object afterwards, the
+global numpy state afterwards -/
+def rep {S G D : Type} (P : Prng S G D) (a : SeedArg S G) (glob : G) : D × SeedArg S G × G :=
+  match a with
+  | .int s => ((P.draw (P.ofSeed s)).1, .int s, glob)
+  | .gen g => ((P.draw g).1, .gen (P.draw g).2, glob)
+  | .none => ((P.draw glob).1, .none, (P.draw glob).2)
+
+/-- `for _ in range(iteration)`: every repetition receives the same argument object -/
+def loop {S G D : Type} (P : Prng S G D) : Nat → SeedArg S G → G → List D × SeedArg S G × G
+  | 0, a, glob => ([], a, glob)
+  | n + 1, a, glob =>
+      let r := rep P a glob
+      let rest := loop P n r.2.1 r.2.2
+      (r.1 :: rest.1, rest.2.1, rest.2.2)
+
+/-- state of a generator after `k` repetitions drew from it -/
+def advance {S G D : Type} (P : Prng S G D) : Nat → G → G
+  | 0, g => g
+  | k + 1, g => advance P k (P.draw g).2
+
+/-! ## the flow: spawned seed sequences, one generator per repetition -/
+
+/-- `SeedSequence.spawn`: child `i` of a sequence -/
+structure SeedTree (S : Type) where
+  child : S → Nat → S
+
+def spawn {S : Type} (T : SeedTree S) (s : S) (n : Nat) : List S := (List.range n).map (T.child s)
+
+/-- `stream_datas = [Generator(MT19937(s)) for s in SeedSequence(seed_data).spawn(n_rep)]` and the data of every repetition -/
+def flowData {S G D : Type} (P : Prng S G D) (T : SeedTree S) (seedData : S) (nRep : Nat) : List D :=
+  (spawn T seedData nRep).map fun s => (P.draw (P.ofSeed s)).1
+
+/-- samples: generators spawned from `seed_qoperation` create the noisy objects; every sample then draws its data from
+`SeedSequence(seed_data)` — the same root for every sample -/
+def flowSamples {S G D O : Type} (P : Prng S G D) (T : SeedTree S) (genObj : G → O) (dataOf : O → G → D × G)
+    (seedQ seedData : S) (nSample nRep : Nat) : List (O × List D) :=
+  (spawn T seedQ nSample).map fun sq =>
+    let o := genObj (P.ofSeed sq)
+    (o, (spawn T seedData nRep).map fun s => (dataOf o (P.ofSeed s)).1)
+
+/-! ## parallel execution -/
+
+/-- tasks run in the order `sched`; every result is stored under its task index -/
+def execute {R : Type} (task : Nat → R) (sched : List Nat) : List (Nat × R) := sched.map fun i => (i, task i)
+
+/-- joblib hands the results back in task order -/
+def collect {R : Type} (n : Nat) (m : List (Nat × R)) : List (Option R) := (List.range n).map fun i => m.lookup i
+
+/-- a batch of tasks that share the objects they were handed (no pickling between them: `n_jobs=1`, or one joblib
+batch): the object state is threaded through the batch -/
+def runBatch {R St : Type} (task : Nat → St → R × St) : St → List Nat → List (Nat × R)
+  | _, [] => []
+  | s, i :: r => (i, (task i s).1) :: runBatch task (task i s).2 r
+
+/-- every batch starts from its own copy of the original object -/
+def runBatches {R St : Type} (task : Nat → St → R × St) (s0 : St) (batches : List (List Nat)) : List (Nat × R) :=
+  (batches.map (runBatch task s0)).flatten
+
+/-! ## re-estimation from stored empirical distributions -/
+
+/-- `re_estimate(test_setting, result, i)`: the estimator applied to the stored data of repetition `i` -/
+def reEstimate {D E : Type} (est : D → E) (stored : List D) (i : Nat) : Option E := (stored[i]?).map est
+
+/-! ## depolarising noise -/
+section depol
+variable {K : Type} [Add K] [Mul K] [Sub K] [Zero K] [One K]
+
+/-- diagonal of `get_depolarizing_channel(p)`: `[1, 1-p, …, 1-p]` -/
+def depolDiag (n : Nat) (p : K) : List K := (List.range n).map fun i => if i = 0 then 1 else 1 - p
+
+/-- `dp.hs @ vec` for the diagonal `hs` (state; the same for a POVM element `conj(e) @ dp.hs`) -/
+def depolVec (p : K) (v : List K) : List K := (depolDiag v.length p).zipWith (· * ·) v
+
+/-- `dp.hs @ hs` (gate, every element of a measurement process): row `i` scaled by the `i`-th diagonal entry -/
+def depolHs (p : K) (hs : List (List K)) : List (List K) :=
+  (depolDiag hs.length p).zipWith (fun d row => row.map (d * ·)) hs
+
+/-- the stated mixture `(1-p)·v + p·v_mixed` with `v_mixed = (v₀, 0, …, 0)` -/
+def mixVec (p : K) (v : List K) : List K :=
+  v.zipIdx.map fun (x : K × Nat) => (1 - p) * x.1 + p * (if x.2 = 0 then x.1 else 0)
+end depol
+
+/-! ## physicality-violation check -/
+
+/-- estimator classes the check distinguishes; for the loss-minimisation estimator the algorithm option's
+`(on_algo_eq_constraint, on_algo_ineq_constraint)`, `none` when `algo_option` is `None` -/
+inductive EstKind
+  | projLinear
+  | linear
+  | lossMin (algoOpt : Option (Bool × Bool))
+  | other
+deriving DecidableEq, Repr
+
+/-- verdicts of one stored estimate: `is_eq_constraint_satisfied(eq_eps(para))`, `is_ineq_constraint_satisfied(ineq_eps)` -/
+structure Verdict where
+  eqOK : Bool
+  ineqOK : Bool
+deriving DecidableEq, Repr
+
+/-- documented thresholds: equality `atol` (1e-13) with the equality constraint parametrised away, `1e-5` otherwise;
+inequality `1e-5` -/
+def eqEps (para : Bool) : Rat := if para then mkRat 1 10000000000000 else mkRat 1 100000
+def ineqEps : Rat := mkRat 1 100000
+
+/-- `[result.estimated_qoperation_sequence[k].<test>() for result in estimation_results]` then `False not in …`;
+`none` = IndexError (a result with too few estimates). `results[rep][num_data_index]`. -/
+def rowsPass (f : Verdict → Bool) (k : Nat) : List (List Verdict) → Option Bool
+  | [] => some true
+  | r :: rs =>
+      match r[k]?, rowsPass f k rs with
+      | some v, some b => some (f v && b)
+      | _, _ => none
+
+/-- `for num_data_index in …` collecting the per-index verdicts, then `False not in all_check_results` -/
+def allPassFrom (f : Verdict → Bool) (results : List (List Verdict)) : List Nat → Option Bool
+  | [] => some true
+  | k :: ks =>
+      match rowsPass f k results, allPassFrom f results ks with
+      | some a, some b => some (a && b)
+      | _, _ => none
+
+def allPass (f : Verdict → Bool) (nNum : Nat) (results : List (List Verdict)) : Option Bool :=
+  allPassFrom f results (List.range nNum)
+
+/-- `execute_physicality_violation_check`; `para` is `estimation_results[0].estimated_qoperation.on_para_eq_constraint` -/
+def violationCheck (kind : EstKind) (para : Bool) (nNum : Nat) (results : List (List Verdict)) : Option Bool :=
+  match kind with
+  | .projLinear => allPass (fun v => v.eqOK && v.ineqOK) nNum results
+  | .linear => if para then allPass (·.eqOK) nNum results else some true
+  | .lossMin none => some true
+  | .lossMin (some (onEq, onIneq)) => do
+      let a ← if onEq then allPass (·.eqOK) nNum results else some true
+      let b ← if onIneq then allPass (·.ineqOK) nNum results else some true
+      some (a && b)
+  | .other => some true
+
+/-- which constraints the estimator was configured to enforce -/
+def enforcesEq : EstKind → Bool → Bool
+  | .projLinear, _ => true
+  | .linear, para => para
+  | .lossMin (some (onEq, _)), _ => onEq
+  | _, _ => false
+
+def enforcesIneq : EstKind → Bool
+  | .projLinear => true
+  | .lossMin (some (_, onIneq)) => onIneq
+  | _ => false
+
+/-! ## driver -/
+
+/-- a toy generator for the executable checks: linear congruential state, one draw = the state itself -/
+def lcg : Prng Nat Nat Nat := ⟨fun s => s % 1000003, fun g => (g, (g * 48271 + 11) % 1000003)⟩
+
+def parseVerdict? (s : String) : Option Verdict :=
+  match s.toList with
+  | [a, b] => if (a = '0' ∨ a = '1') ∧ (b = '0' ∨ b = '1') then some ⟨a = '1', b = '1'⟩ else none
+  | _ => none
+
+def parseKind? (s : String) : Option EstKind :=
+  match s with
+  | "plin" => some .projLinear
+  | "lin" => some .linear
+  | "other" => some .other
+  | "lossN" => some (.lossMin none)
+  | "loss00" => some (.lossMin (some (false, false)))
+  | "loss01" => some (.lossMin (some (false, true)))
+  | "loss10" => some (.lossMin (some (true, false)))
+  | "loss11" => some (.lossMin (some (true, true)))
+  | _ => none
+
+def showOB : Option Bool → String
+  | some true => "true" | some false => "false" | none => "indexError"
+
+def showSeedArgKind {S G : Type} : SeedArg S G → String
+  | .int _ => "int" | .gen _ => "gen" | .none => "none"
+
+def handle (args : List String) : Option String :=
+  match args with
+  | "check" :: kind :: para :: nNum :: rows => do
+      let kind ← parseKind? kind
+      let nNum ← nNum.toNat?
+      let rows ← rows.mapM fun r => if r = "-" then some [] else (r.splitOn ",").mapM parseVerdict?
+      some (showOB (violationCheck kind (para = "1") nNum rows))
+  | ["depolvec", p, v] => do
+      let p ← parseRat? p
+      let v ← parseList? parseRat? v
+      some (showList showRat (depolVec p v) ++ " " ++ showList showRat (mixVec p v))
+  | ["depolhs", p, n, hs] => do
+      let p ← parseRat? p
+      let n ← n.toNat?
+      let xs ← parseList? parseRat? hs
+      if xs.length ≠ n * n then none else
+      let m := (List.range n).map fun r => (xs.drop (r * n)).take n
+      some (showList showRat (depolHs p m).flatten)
+  | ["eps", para] => some (showRat (eqEps (para = "1")) ++ " " ++ showRat ineqEps)
+  | ["loop", kind, seed, n] => do
+      let seed ← seed.toNat?
+      let n ← n.toNat?
+      let a : SeedArg Nat Nat ← match kind with
+        | "int" => some (.int seed) | "gen" => some (.gen (lcg.ofSeed seed)) | "none" => some .none | _ => none
+      let r := loop lcg n a (lcg.ofSeed 7)
+      some (showList toString r.1 ++ " " ++ toString r.2.2)
+  | ["batches", n, bs] => do
+      -- tasks `i ↦ (i + state, state + 1)` (a state-dependent task) run in the given batches
+      let n ← n.toNat?
+      let bs ← (bs.splitOn ";").mapM fun b => parseList? parseNat? b
+      let m := runBatches (fun i (s : Nat) => (i + 100 * s, s + 1)) 0 bs
+      some (showList (fun o => match o with | some x => toString x | none => "N") (collect n m))
+  | _ => none
+
 end QM.C15
